@@ -106,7 +106,7 @@ def ref_exact_step(rs, x, t, log, pos):
     return pos, w, clocks[w]
 
 
-def ref_path(rs, x0, t0, T, exact, log, pre_tau=None, partial=False):
+def ref_path(rs, x0, t0, T, exact, log, pre_tau=None, partial=False, stop_at_log_end=False):
     """Replay the reference process against the draw log of the implementation.
     Returns dict(X, J, T, end, used) or raises Mismatch.  partial=True: the log may continue
     (draws of the next run of an ensemble); 'used' is the number of draws this run consumed."""
@@ -116,6 +116,9 @@ def ref_path(rs, x0, t0, T, exact, log, pre_tau=None, partial=False):
     pos = 0
     end = "horizon"
     while t < T:
+        if stop_at_log_end and pos >= len(log):
+            end = "log-end"
+            break
         if T - t <= 1e-9 * (1 + abs(T)):
             # the loop condition would be decided by rounding of the accumulated time
             raise Skip("time-within-rounding-of-horizon")
@@ -228,17 +231,48 @@ def check_raw_path(rs, x0, t0, T, exact, out, log, pre_tau=None, partial=False, 
 class Config:
     """one simulation configuration (picklable)"""
 
-    def __init__(self, d, theta, x0, T, mode, t0=0.0, grid=None, name=""):
+    def __init__(self, d, theta, x0, T, mode, t0=0.0, grid=None, name="", menu=None):
         self.d, self.theta, self.x0, self.T, self.mode, self.t0 = d, list(theta), list(x0), T, mode, t0
         self.grid = grid
         self.name = name
+        self.menu = menu          # None: the small absolute poisson menu; "relative": answers stated relative to the mean
+
+    @property
+    def pois_menu(self):
+        return sched.POIS_MENU_REL if self.menu == "relative" else None
 
     def pre_tau(self):
         return self.mode[1] if self.mode[0] == "tau_fixed" else None
 
     def key(self):
         return {"name": self.name, "def": self.d, "theta": self.theta, "x0": self.x0, "T": self.T,
-                "mode": self.mode, "t0": self.t0, "grid": self.grid}
+                "mode": self.mode, "t0": self.t0, "grid": self.grid, "menu": self.menu}
+
+
+def probe_horizon(args):
+    """worker for the large-population leg: run the all-default execution of cfg for `nsteps` accepted steps and return
+    a horizon lying strictly between the time of step `nsteps` - 1 and step `nsteps` (None when the path ends earlier).
+    The horizon is an input of the exploration, not a verdict: whatever the implementation does, the explored executions
+    are judged against the reference for that horizon."""
+    cfg, nsteps = args
+    try:
+        m, order = make_model(cfg)
+        rs = RefSim(cfg.d, cfg.theta, order)
+        probe = Config(cfg.d, cfg.theta, cfg.x0, 1.0e9, cfg.mode, t0=cfg.t0, name=cfg.name, menu=cfg.menu)
+        s = run_l2(m, probe, [], horizon=(2 * nsteps + 2) * rs.ne)
+        TT = None
+        # the reference reads the same draws (the log is cut at the draw horizon, possibly inside a block)
+        for k in range(len(s.log), max(0, len(s.log) - 3 * rs.ne - 1), -1):
+            try:
+                TT = ref_path(rs, cfg.x0, cfg.t0, 1.0e9, False, s.log[:k], pre_tau=cfg.pre_tau(), stop_at_log_end=True)["T"]
+                break
+            except (Mismatch, Skip):
+                continue
+        if not TT or len(TT) <= nsteps:
+            return None
+        return 0.5 * (TT[nsteps - 1] + TT[nsteps])
+    except Exception:
+        return None
 
 
 def x0_dtype(cfg):
@@ -264,7 +298,7 @@ def make_model(cfg):
 
 def run_l2(m, cfg, prefix, horizon=400, iteration=1):
     """one controlled execution of solve_stochast; returns the scheduler with .out/.error"""
-    s = sched.Sched(prefix, horizon=horizon)
+    s = sched.Sched(prefix, horizon=horizon, pois_menu=getattr(cfg, "pois_menu", None) or sched.POIS_MENU)
     s.out = None
     s.error = None
     exact = cfg.mode[0] == "exact"
